@@ -306,6 +306,7 @@ func gen(r *vlib.R, n int, tier string, emit func(string)) {
 	// splitmix64 sequence; re-key from a scrambled output so that seeds 1..5
 	// are unrelated streams (everything still derives from VERIF_SEED).
 	r = vlib.NewR(r.U64() ^ 0xc13c13c13c13c13)
+	genL3(r, tier, emit, &n)
 	genStateless(r, emit, &n, 40)
 	for n > 0 {
 		size, mn, mx, valid := genNew(r)
@@ -482,6 +483,8 @@ func (g *caseGen) one() {
 		q := g.relatedQ()
 		g.qs = append(g.qs, q)
 		g.out("fail sset %s %s %d", q, vlib.Pick(r, []string{"useful", "nxdomain", "servfail", "refused", "other"}), g.step())
+	case k < 97:
+		g.alias2()
 	case k < 98:
 		g.serve()
 	default:
@@ -520,6 +523,22 @@ func wireOfPres(s string) (string, bool) {
 func (g *caseGen) alsoWire(q qspec, t int64) {
 	if w, ok := wireOfPres(q.name); ok {
 		g.out("fail %slookupw %s %d %d %s %d", g.viaStore(), w, q.t, q.c, vlib.B(q.cd), t)
+	}
+}
+
+// alias questions whose CNAME target leg fails or succeeds (fail alias).
+func (g *caseGen) alias2() {
+	r := g.r
+	q := g.relatedQ()
+	if _, ok := wireOfPres(q.name); !ok || q.name == "." || q.name == "" {
+		q.name = "alias.example.com."
+	}
+	q.t, q.c, q.scope = 1, 1, "-"
+	g.qs = append(g.qs, q)
+	outs := []string{"local:attempt", "local:attempt", "local:work", "local:deadline", "local:canceled", "local:maxrec", "local:probe", "err:attempt", "servfail", "refused", "local:other", "ok"}
+	n := 1 + r.Intn(3)
+	for i := 0; i < n; i++ {
+		g.out("fail alias %s %d %s %s %d %s", hexName(q.name), q.c, vlib.B(q.cd), vlib.B(r.Bool()), g.step(), vlib.Pick(r, outs))
 	}
 }
 
@@ -623,6 +642,42 @@ func (g *caseGen) alias() {
 	g.out("fail recq %s %d 4 2", second, g.t)
 	g.out("fail lookup %s %d", first, g.t)
 	g.out("fail lookup %s %d", second, g.t)
+}
+
+// system-level scenarios: a zone with several differently scripted servers.
+// Three fast failures plus one slower healthy server in every position, mixes
+// with drops, and all-failing controls.
+func genL3(r *vlib.R, tier string, emit func(string), n *int) {
+	fails := []string{"s", "r", "n"}
+	k := 3
+	if tier == "thorough" {
+		k = 10
+	}
+	for i := 0; i < k; i++ {
+		m := 4 + r.Intn(2)
+		spec := make([]string, m)
+		for j := range spec {
+			spec[j] = vlib.Pick(r, fails)
+		}
+		spec[r.Intn(m)] = "h"
+		if i%3 == 2 {
+			spec[(r.Intn(m-1)+1+indexOf(spec, "h"))%m] = "d"
+		}
+		emit(fmt.Sprintf("fail l3zone %s %d", strings.Join(spec, ","), 150+r.Intn(151)))
+		*n--
+	}
+	emit("fail l3zone s,r,s,s 0") // control: every server fails, the zone failure may be recorded
+	emit(fmt.Sprintf("fail l3zone f,%s,%s 0", vlib.Pick(r, fails), vlib.Pick(r, fails)))
+	*n -= 2
+}
+
+func indexOf(xs []string, x string) int {
+	for i, v := range xs {
+		if v == x {
+			return i
+		}
+	}
+	return 0
 }
 
 func genStateless(r *vlib.R, emit func(string), n *int, k int) {
